@@ -162,6 +162,18 @@ static void SetCPUCore(tCPUDef const* pCPUDef, tStrComp const* pCPUArgs) {
     UnsetCPU();
     strmaxcpy(MomCPUArgs, pCPUArgs ? pCPUArgs->str.p_str : "", STRINGSIZE);
 
+    /* the start addresses of the segments are the new target's: what it does not set
+       (several targets leave their data segment alone) starts at 0, not where the
+       previous target's segment started */
+
+    {
+        int Seg;
+
+        for (Seg = 0; Seg < SegCount; Seg++) {
+            SegInits[Seg] = 0;
+        }
+    }
+
     ParseCPUArgs(pCPUArgs, pCPUDef->pArgs);
     pCPUDef->SwitchProc(pCPUDef->pUserData);
 
